@@ -470,3 +470,12 @@ T('pkgA_twin_execute_named_application', ['C02', 'C04'],
 T('pkgA_twin_dispatch_path_params_renamed', ['C02'],
   (A, "            path_params = route.match_path(url_path)\n            if path_params is None:\n                continue\n            request.path_params = path_params\n            params = dict(base_params, **path_params)\n",
       "            url_params = route.match_path(url_path)\n            if url_params is None:\n                continue\n            request.path_params = url_params\n            params = dict(base_params, **url_params)\n"))
+
+T('pkgA_twin_request_core_globals_renamed', ['C02', 'C03', 'C04'],
+  (C, "    context = endpoint({endpoint_args})\n    if isinstance(context, BaseResponse):", "    context = ep_chain({endpoint_args})\n    if isinstance(context, Response):"),
+  (C, "        resp = render({render_args})", "        resp = rn_chain({render_args})"),
+  (C, "    env = {'endpoint': endpoint, 'render': render, 'BaseResponse': BaseResponse}", "    env = {'ep_chain': endpoint, 'rn_chain': render, 'Response': BaseResponse}"))
+B('pkgA_request_core_globals_renamed_crossed', ['C03'], 'R03.c',
+  (C, "    context = endpoint({endpoint_args})\n    if isinstance(context, BaseResponse):", "    context = ep_chain({endpoint_args})\n    if isinstance(context, Response):"),
+  (C, "        resp = render({render_args})", "        resp = rn_chain({render_args})"),
+  (C, "    env = {'endpoint': endpoint, 'render': render, 'BaseResponse': BaseResponse}", "    env = {'rn_chain': endpoint, 'ep_chain': render, 'Response': BaseResponse}"))
